@@ -311,6 +311,16 @@ func addTrashBlockMarkers(ssaFunc *ssa.Function, count int, obfRand *mathrand.Ra
 		setBlockParent(trashBlockDispatch, ssaFunc)
 		targetBlock.Succs[succsIdx] = trashBlockDispatch
 
+		// Fix preds for ssa.Phi working: the successor is now entered from the
+		// dispatch block. Left as targetBlock, a later split of targetBlock would
+		// keep the phi assignments in its first part, before their values exist.
+		for i, pred := range succs.Preds {
+			if pred == targetBlock {
+				succs.Preds[i] = trashBlockDispatch
+				break
+			}
+		}
+
 		trashBlock.Preds = []*ssa.BasicBlock{trashBlockDispatch, trashBlock}
 		trashBlock.Succs = []*ssa.BasicBlock{trashBlock}
 
